@@ -286,6 +286,9 @@ def winding_witnesses():
         [(0, 0), (3, 0), (3, 1), (1, 1), (1, 3), (0, 3)],          # concave
         [(0, 1), (1, 0), (2, 1), (1, 3)],
     ]
+    from ..report import thorough
+    if thorough():
+        bases += [[(0, 0), (4, 0), (4, 3), (2, 1), (0, 3)], [(0, 2), (1, 0), (3, 0), (4, 2), (2, 4)], [(0, 0), (2, 0), (2, 1), (4, 1), (4, 3), (0, 3)]]
     seen = set()
     for base in bases:
         for ring in (base, base[::-1]):
